@@ -18,9 +18,9 @@ US.update({'printf.0': 1502, 'printf.1': 1502, 'printf.2': 1502, 'puts.0': 200, 
 
 
 def jobs_for(tier, only=None):
-    ndg = 1 if tier == 'quick' else 2
+    ndg = 1      # real-size buffers: one datagram from an arbitrary carried-over state; sequences run scaled
     lmax = 96 if tier == 'quick' else 160
-    vlen = 128 if tier == 'quick' else 1500      # acf-vss / cvf: bound on the received length
+    vlen = 128 if tier == 'quick' else 512       # acf-vss: bound on the received length (real-size buffer)
     jobs = []
 
     HEAVY = ('acf-can-listener', 'cvf-listener', 'acf-vss-listener')
@@ -33,7 +33,7 @@ def jobs_for(tier, only=None):
         us = dict(US)
         us.update(unwindset)
         jobs.append(Job('c18.' + name, src, LIB, incs=['examples'], unwind=unwind, unwindset=us,
-                        defines=list(defines), timeout=timeout, backend='cadical', mem_gb=(12 if 'scaled' in name else (24 if (tier == 'thorough' or 'cvf' in name or 'acf-vss' in name) else 12)),
+                        defines=list(defines), timeout=timeout, backend='cadical', mem_gb=(12 if 'scaled' in name else (36 if 'acf-vss' in name else (24 if (tier == 'thorough' or 'cvf' in name) else 12))),
                         nondet_static=nondet_static, loop_policy=loop_policy,
                         meta=dict({'datagrams': ndg, 'received_length': '0..%s (arbitrary content; the 1500-byte buffer tail is arbitrary too)' % (defines and defines[0].split('=')[1] or 1500)}, **(meta or {}))))
 
@@ -57,9 +57,13 @@ def jobs_for(tier, only=None):
     add('cvf-listener', L.packet_fn_listener('cvf/cvf-listener.c', 'cvf-listener', 'new_packet(3, 5)', ndg,
                                              ['STAILQ_INIT(&nals);', 'expected_seq = vp_g.st[0];']),
         {'harness.0': ndg + 1}, defines=['VP_LEN_MAX=%d' % (160 if tier == 'quick' else 1500)])
-    add('aaf-listener', L.packet_fn_listener('aaf/aaf-listener.c', 'aaf-listener', 'new_packet(3, 5)', ndg,
-                                             ['STAILQ_INIT(&samples);', 'expected_seq = vp_g.st[0];']),
-        {'harness.0': ndg + 1}, defines=['VP_LEN_MAX=1500'])
+    for nd in ((1, 2, 3) if tier == 'quick' else (1, 2, 3, 4)):
+        add('aaf-listener.dg%d' % nd,
+            L.packet_fn_listener('aaf/aaf-listener.c', 'aaf-listener', 'new_packet(3, 5)', nd,
+                                 ['STAILQ_INIT(&samples);', 'expected_seq = vp_g.st[0];'],
+                                 between=('!STAILQ_EMPTY(&samples)', 'timeout(5)')),
+            {'harness.0': nd + 1}, defines=['VP_LEN_MAX=1500'],
+            meta={'datagrams': nd, 'timer_expiry_between_datagrams': 'symbolic choice'})
     # ---- scaled model: the guarded hook shrinks the receive buffer, so that EVERY received length up to the
     # buffer size (the end-of-buffer cases) is covered by one cheap query
     def scaled(name, src, size, unwindset, extra_defs=(), **kw):
@@ -67,24 +71,26 @@ def jobs_for(tier, only=None):
                                                               'present_data.0': size + 2}),
             defines=['VP_LEN_MAX=%d' % size, 'VP_DG_MAX=%d' % size] + list(extra_defs),
             meta={'scaled_receive_buffer': size, 'hook': 'COVESA_OPEN1722_VERIF_MAX_PDU_SIZE / _DATA_LEN'}, **kw)
-    for ndg_s in (1, 2):
+    scale = 1 if tier == 'quick' else 2
+    for ndg_s in ((1, 2) if tier == 'quick' else (1, 2, 3)):
         for udp in (0, 1):
             for fd in (0, 1):
                 scaled('acf-can-listener.%s.%s' % ('udp' if udp else 'raw', 'fd' if fd else 'classic'),
-                       L.acf_can_listener(ndg_s, (udp, fd)), 112, {'new_packet.0': 112 // 16 + 2, 'harness.0': ndg_s + 1},
-                       ['COVESA_OPEN1722_VERIF_MAX_PDU_SIZE=112'])
+                       L.acf_can_listener(ndg_s, (udp, fd)), 112 * scale, {'new_packet.0': 112 * scale // 16 + 2, 'harness.0': ndg_s + 1},
+                       ['COVESA_OPEN1722_VERIF_MAX_PDU_SIZE=%d' % (112 * scale)])
         for udp in (0, 1):
             scaled('hello-world-listener.%s' % ('udp' if udp else 'raw'),
                    L.main_loop_listener('hello-world/hello-world-listener.c', 'hello-world-listener', ndg_s, ['use_udp = %d;' % udp]),
-                   72, {'listener_main.0': ndg_s + 2, 'printf.0': 120, 'printf.1': 120, 'printf.2': 120},
-                   ['COVESA_OPEN1722_VERIF_MAX_PDU_SIZE=72'])
+                   72 * scale, {'listener_main.0': ndg_s + 2, 'printf.0': 220, 'printf.1': 220, 'printf.2': 220},
+                   ['COVESA_OPEN1722_VERIF_MAX_PDU_SIZE=%d' % (72 * scale)])
             scaled('acf-vss-listener.%s' % ('udp' if udp else 'raw'),
                    L.main_loop_listener('acf-vss/acf-vss-listener.c', 'acf-vss-listener', ndg_s, ['use_udp = %d;' % udp]),
-                   72, {'listener_main.0': ndg_s + 2, 'printf.0': 120, 'printf.1': 120, 'printf.2': 120},
-                   ['COVESA_OPEN1722_VERIF_MAX_PDU_SIZE=72'], loop_policy=c07.codec_loop_policy('float', 2))
+                   72 * scale, {'listener_main.0': ndg_s + 2, 'printf.0': 220, 'printf.1': 220, 'printf.2': 220},
+                   ['COVESA_OPEN1722_VERIF_MAX_PDU_SIZE=%d' % (72 * scale)], loop_policy=c07.codec_loop_policy('float', 2))
         scaled('cvf-listener', L.packet_fn_listener('cvf/cvf-listener.c', 'cvf-listener', 'new_packet(3, 5)', ndg_s,
-                                                    ['STAILQ_INIT(&nals);', 'expected_seq = vp_g.st[0];']),
-               60, {'harness.0': ndg_s + 1}, ['COVESA_OPEN1722_VERIF_DATA_LEN=32'])
+                                                    ['STAILQ_INIT(&nals);', 'expected_seq = vp_g.st[0];'],
+                                                    between=('!STAILQ_EMPTY(&nals)', 'timeout(5)')),
+               28 + 32 * scale, {'harness.0': ndg_s + 1}, ['COVESA_OPEN1722_VERIF_DATA_LEN=%d' % (32 * scale)])
     crf_pre = ['STAILQ_INIT(&mclk_timestamps);', 'crf_seq_num = vp_g.st[0]; aaf_seq_num = vp_g.st[1];',
                'prev_state = vp_g.st[2] & 1; need_mclk_lookup = vp_g.st[3] & 1; first_aaf_pdu = vp_g.st[4] & 1;',
                'memcpy(&prev_mclk_timestamp, &vp_g.st[5], 8);']
@@ -128,7 +134,7 @@ def run(tier, only=None):
         'poll/timerfd/socket helpers/argp_parse succeed without effects; get_presentation_time/arm_timer are '
         'stubbed (environment plumbing); clock fixed',
         'state carried between datagrams (expected sequence numbers, media-clock flags) is arbitrary at entry; '
-        'queues start empty; quick: 1 datagram, thorough: 2 consecutive datagrams',
+        'queues start empty; real-size runs: 1 datagram from an arbitrary carried-over state; scaled runs: 1 and 2 (thorough: 3) consecutive datagrams',
         'acf-can-listener: received length bounded to 96 (quick) / 160 (thorough) bytes, i.e. up to 5 / 9 ACF '
         'messages per datagram (each consumes >= 16 bytes); longer datagrams are outside the explicit claim - the '
         'per-message code is the same; acf-vss-listener and cvf-listener: received length bounded to 128 / 160 bytes in the quick tier (symbolic-size copies and string scans over 1500 bytes exhaust memory), any length 0..1500 in the thorough tier; hello-world, aaf, crf: any length 0..1500',
